@@ -102,6 +102,45 @@ impl LibraryRenderer {
     fn outdent(&mut self) {
         self.indents -= 1;
     }
+
+    /// Writes the global variables of a configuration or resource. There is
+    /// one block of them, in front of everything else.
+    fn write_global_vars(&mut self, vars: &[VarDecl]) -> Result<(), Diagnostic> {
+        let first = match vars.first() {
+            Some(first) => first,
+            None => return Ok(()),
+        };
+
+        self.write_ws("VAR_GLOBAL");
+        match first.qualifier {
+            DeclarationQualifier::Unspecified => {}
+            DeclarationQualifier::Constant => self.write_ws("CONSTANT"),
+            DeclarationQualifier::Retain => self.write_ws("RETAIN"),
+            DeclarationQualifier::NonRetain => self.write_ws("NON_RETAIN"),
+        }
+        self.newline();
+
+        self.indent();
+        for var in vars.iter() {
+            match &var.identifier {
+                VariableIdentifier::Symbol(id) => {
+                    self.visit_id(id)?;
+                }
+                VariableIdentifier::Direct(direct) => {
+                    self.visit_direct_variable_identifier(direct)?;
+                }
+            }
+            self.write_ws(":");
+            self.visit_initial_value_assignment_kind(&var.initializer)?;
+            self.write(";");
+            self.newline();
+        }
+        self.outdent();
+
+        self.write_ws("END_VAR");
+        self.newline();
+        Ok(())
+    }
 }
 
 impl Visitor<Diagnostic> for LibraryRenderer {
@@ -1029,16 +1068,14 @@ impl Visitor<Diagnostic> for LibraryRenderer {
         self.newline();
 
         self.indent();
+        self.write_global_vars(&node.global_vars)?;
+
         for task in node.tasks.iter() {
             self.visit_task_configuration(task)?;
         }
 
         for program in node.programs.iter() {
             self.visit_program_configuration(program)?;
-        }
-
-        for var in node.global_vars.iter() {
-            self.visit_var_decl(var)?;
         }
 
         self.outdent();
@@ -1143,6 +1180,7 @@ impl Visitor<Diagnostic> for LibraryRenderer {
         self.newline();
 
         self.indent();
+        self.write_global_vars(&node.global_var)?;
         for res in node.resource_decl.iter() {
             self.visit_resource_declaration(res)?;
         }
